@@ -120,7 +120,18 @@ func runC18(p *core.Prog, r *core.Report, tier string) {
 				continue
 			}
 			kd, vd := ds.D(args[len(args)-2]), ds.D(args[len(args)-1])
-			ok := kd.Kind == "param" && kd.Name == fn.Params[2].Name() && vd.MentionsValue(fetch) && vd.HasFieldSuffix("Slot")
+			ok := kd.Kind == "param" && kd.Name == fn.Params[2].Name()
+			nl := 0
+			for _, lf := range core.FeasibleLeaves(fn, args[len(args)-1], ci.(ssa.Instruction)) {
+				ld := ds.D(lf.V)
+				nl++
+				if !(ld.MentionsValue(fetch) && ld.HasFieldSuffix("Slot")) {
+					ok = false
+				}
+			}
+			if nl == 0 {
+				ok = false
+			}
 			r.Check(ok, "C18.b", "BlockRootToSlot|store-args", p.Pos(ci.Pos()), "stores (root parameter, fetched header slot): "+vd.String(),
 				fmt.Sprintf("stores (%s, %s): key must be the root parameter and value the fetched header's Slot", kd, vd))
 			// and the store only happens when the fetch succeeded
@@ -342,6 +353,12 @@ func slotValueOK(p *core.Prog, ds *core.Describer, fn *ssa.Function, v ssa.Value
 		for i, e := range phi.Edges {
 			pred := phi.Block().Preds[i]
 			last := pred.Instrs[len(pred.Instrs)-1]
+			// a value that flows in along an edge from which the use is unreachable (the failure exit of an
+			// inlined helper, whose error the caller returns) is not a returned value
+			edge := [2]*ssa.BasicBlock{pred, phi.Block()}
+			if w := (core.PathQuery{Fn: fn, StartEdge: &edge, Target: func(in ssa.Instruction) bool { return in == at }}).Find(); w == nil {
+				continue
+			}
 			if ok, why, wit := slotValueOK(p, ds, fn, e, last, mapField); !ok {
 				return false, why, wit
 			}
